@@ -144,9 +144,17 @@ def align(value, m):
     return value
 
 
-def wrap_negative(value, bits):
-    """Make a bitmask of a value, even if it is a negative value !"""
-    upper_limit = (1 << (bits)) - 1
+def wrap_negative(value, bits, allow_unsigned=False):
+    """Make a bitmask of a value, even if it is a negative value !
+
+    The value must fit a signed field of the given amount of bits. Pass
+    allow_unsigned when the field holds a plain bit pattern (for example an
+    absolute address), to accept values up to 2**bits - 1 as well.
+    """
+    if allow_unsigned:
+        upper_limit = (1 << bits) - 1
+    else:
+        upper_limit = (1 << (bits - 1)) - 1
     lower_limit = -(1 << (bits - 1))
     if value not in range(lower_limit, upper_limit + 1):
         raise ValueError(
